@@ -150,7 +150,11 @@ func SortedProps(s models.IndexSchema) []string {
 // ---------------------------------------------------------------------------
 // value pools
 
-var StringPool = []string{"a", "A", "ab", "aB", "AB", "abc", "abd", "b", "B", "é", "É", "éa", "ß", "z", "Z", "zz", "a b", "日本", "日", "_delete_x", "0", "~"}
+var StringPool = []string{"a", "A", "ab", "aB", "AB", "abc", "abd", "b", "B", "é", "É", "éa", "ß", "z", "Z", "zz", "a b", "日本", "日", "_delete_x", "0", "~",
+	// characters whose case-fold orbit has several lower-case members (simple folding and lower-casing
+	// disagree on them): micro sign / Greek mu, final sigma / sigma, long s / s, Kelvin sign / k, dotted and
+	// dotless i, the dz digraphs
+	"\u00b5m", "\u03bcm", "\u039cm", "lo\u03c2", "lo\u03c3", "lo\u03a3", "\u017f", "s", "S", "\u212a", "k", "\u0130", "\u0131", "i", "I", "\u01c5", "\u01c6", "\u01c4"}
 
 var IntPool = []int64{math.MinInt64, math.MinInt64 + 1, -1000, -2, -1, 0, 1, 2, 3, 1000, math.MaxInt64 - 1, math.MaxInt64}
 
